@@ -1,4 +1,5 @@
 //go:debug randautoseed=0
+//go:debug randseednop=0
 package c18codec
 
 import (
